@@ -1345,6 +1345,12 @@ Proof.
   - assert (E : (g =? x) = false) by (apply N.eqb_neq; congruence). rewrite E. reflexivity.
 Qed.
 
+Lemma filter_none_in {A} (p : A -> bool) (l : list A) : (forall x, In x l -> p x = false) -> filter p l = [].
+Proof.
+  induction l as [|x l IH]; intro H; cbn [filter]; [reflexivity|]. rewrite (H x (or_introl eq_refl)). apply IH.
+  intros y Hy. apply H. right. exact Hy.
+Qed.
+
 Theorem ops_carry_placements_proof : forall (out : list (N * placed)),
   NoDup (map fst (ops_of_round out)) /\
   forall g, flat_map (fun o : N * list placed => if fst o =? g then snd o else []) (ops_of_round out)
@@ -1373,7 +1379,7 @@ Qed.
 Lemma placed_eqb_eq a b : placed_eqb a b = true <-> a = b.
 Proof.
   unfold placed_eqb. rewrite !andb_true_iff, !list_eqb_N_eq, N.eqb_eq, Bool.eqb_true_iff.
-  destruct a, b; cbn [p_sample p_name p_part p_rc]. split; [intros [[[-> ->] ->] ->]; reflexivity|intro H; inversion H; auto].
+  destruct a as [a1 a2 a3 a4], b as [b1 b2 b3 b4]; cbn. split; [intros [[[-> ->] ->] ->]; reflexivity|intro H; inversion H; auto].
 Qed.
 Definition grp_of (stored : list (N * placed)) (p : placed) : N :=
   match find (fun x => placed_eqb (snd x) p) stored with Some x => fst x | None => 0 end.
